@@ -484,6 +484,10 @@ def main(chk: Check):
     ok = chk.build(["C03/Prop_C03.vo"]) if tables_ok else False
     if ok:
         chk.check_assumptions("C03/Prop_C03.v")
+    elif tables_ok:
+        # a proof obligation broke (only possible through the regenerated tables): the model and the spec
+        # contain no proofs, so they still evaluate -- go on and search for a concrete failing input
+        ok = chk.build(["C03/Spec_C03.vo"], what="model and spec (no proofs)")
     chk.lint(["C03"])
     chk.check_fingerprint(ANCHORS)
 
